@@ -164,9 +164,44 @@ def job(ctx, i):
                 'ops_kept': sum(1 for o in small['ops']
                                 if o['op'] != 'nop'),
                 'original_ops': len(plan['ops']), 'replayed_ok': oks}
+        # what does the violation need?
+        needs_nest = any('nest' in o for o in small['ops'])
+        fault_ops = [k for k, o in enumerate(small['ops']) if 'fault' in o]
+        window = None
+        if fault_ops and not needs_nest:
+            # A violation that needs an injected fault is reported only if
+            # the window is wide: the fault is moved to 8 other positions
+            # spread over the call, and at least 2 of them must violate too.
+            # An implementation that changes its argument and restores it in
+            # a `finally` can only be caught with the fault inside the few
+            # lines of the restore itself - the statement (inputs, histories)
+            # does not promise that.
+            k = fault_ops[-1]
+            window = 0
+            for u in (0.06, 0.18, 0.3, 0.42, 0.54, 0.66, 0.78, 0.9):
+                p2 = dict(small)
+                p2['ops'] = list(small['ops'])
+                o2 = dict(p2['ops'][k])
+                o2['fault'] = {'kind': o2['fault']['kind'], 'u': u}
+                p2['ops'][k] = o2
+                if c07._violates(p2, v['class'], ctx['timeout'])[0]:
+                    window += 1
+            body['fault_window'] = '{} of 8 other positions of the same ' \
+                'fault violate as well'.format(window)
         path = write_replay(prop, ctx['seed'], ctx['tier'], i, body)
-        out['violations'] = [{'class': v['class'], 'detail': detail,
-                              'replay': path, 'replayed_ok': oks}]
+        rec = {'class': v['class'], 'detail': detail, 'replay': path,
+               'replayed_ok': oks}
+        if needs_nest:
+            # only the interleaved-calls configuration sees it: outside the
+            # statement's quantifier (finite sequences of calls)
+            out.setdefault('notes', {})['extension_finding'] = rec
+            out.setdefault('extra', {})['extension_findings'] = 1
+            out['extension'] = [rec]
+        elif window is not None and window < 2:
+            out.setdefault('notes', {})['narrow_fault_window'] = rec
+            out.setdefault('extra', {})['narrow_fault_window_findings'] = 1
+        else:
+            out['violations'] = [rec]
     return out
 
 
